@@ -9,11 +9,17 @@ from histprop import HistProp
 
 CORE_TRUST = [
     'Coq 8.16.1 kernel (coqc; vm_compute for evaluating cases; no native_compute)',
-    'harness/world.py (runner, object-graph dumper, audits A1-A2, probes), harness/histgen.py, Run/SCore.v',
+    'harness/world.py + harness/sworld.py (runners, object-graph dumpers, audits A1-A2, probes), harness/histgen.py, '
+    'Run/SCore.v, Run/SSeries.v',
     'Spec/Table.v, Spec/Ops.v: hand-written positional reference model; Model/LTable.v: inv_b and abs evaluated on dumps',
+    'Spec/SeriesEnc.v: a SeriesColumn of depth d is read as d FloatColumn pseudo-columns name#j; the series operations '
+    'are finite sequences of alphabet operations (expand); tables with series columns are compared up to name order',
 ]
 CORE_ASSUME = [
-    'Series payload columns are outside the modelled alphabet of the history checks',
+    'a share of the histories runs on tables with SeriesColumns (creation, row / slice / index-list / selection / Row '
+    'writes of scalars, series, per-row numbers and matrices, (row, sample) writes, depth changes, rename, delete, '
+    'copy / alias) through the pseudo-column encoding; values there are numbers (malformed shapes must be refused, '
+    'exception class not judged); relatives whose series depths differ are not merged (NumPy refuses; out of model)',
     'random operations take the permutation the implementation produced as an oracle argument, validated in Coq',
     'the theorems are about the L0 model; the implementation is tied to it by the per-step correspondence '
     '(inv_b on every dumped object graph, abs(dump) = Spec.step) on the explored histories only',
@@ -100,7 +106,7 @@ def series_payload_probes(rng, n, prop_kind):
                     before = np.array(cur.s._seq, copy=True)
                     ubefore = list(cur.u)
                     i = sub.randrange(len(cur))
-                    form = sub.choice(['sample', 'row', 'slice', 'sel'])
+                    form = sub.choice(['sample', 'row', 'slice', 'sel', 'list_series', 'sel_series'])
                     trail.append('write:' + form)
                     want = before.copy()
                     if form == 'sample':
@@ -113,6 +119,21 @@ def series_payload_probes(rng, n, prop_kind):
                     elif form == 'slice':
                         cur.s[i:] = 9
                         want[i:] = 9
+                    elif form == 'list_series':
+                        # one depth-long series for several rows: every addressed row receives the whole series
+                        rows_ = sorted(set([i, sub.randrange(len(cur))]))
+                        cur.s[rows_] = [1.5, 2.5, 3.5]
+                        want[rows_] = [1.5, 2.5, 3.5]
+                    elif form == 'sel_series':
+                        sel = cur.u >= cur.u[i]
+                        hit = [r for r in range(len(cur)) if cur.u[r] >= cur.u[i]]
+                        if len(hit) == 3:
+                            # as many rows as samples: the value is documented to mean one number per row
+                            sel = cur.u == cur.u[i]
+                            hit = [r for r in range(len(cur)) if cur.u[r] == cur.u[i]]
+                        if len(hit) != 3:
+                            cur.s[sel] = [1.5, 2.5, 3.5]
+                            want[hit] = [1.5, 2.5, 3.5]
                     else:
                         sel = cur.u == cur.u[i]
                         cur.s[sel] = 8
@@ -157,8 +178,9 @@ class ProbeMixin:
 class C03(HistProp):
     id = 'C03'
     props_file = 'theories/Props/C03.v'
+    series_share = 0.1
     weights = W(select=10, slice=6, getrows=3, sort=6, shuffle=6, sample=2, setcell=8, merge=24, new=1, setcol=2,
-                setcolkind=1, setlength=1, concat=1)
+                setcolkind=1, setlength=1, concat=1, setcolfromcol=3, setcolfromslice=1)
     gen_kw = {'max_pool': 10, 'max_rows': 30, 'bad_rate': 0.06}
     big_first = True
     n_quick = 300
@@ -176,8 +198,10 @@ class C03(HistProp):
 class C04(ProbeMixin, HistProp):
     id = 'C04'
     props_file = 'theories/Props/C04.v'
+    series_share = 0.3
+    p_series = 0.5
     weights = W(setcell=30, select=7, merge=3, slice=3, getrows=2, sort=4, shuffle=4, setlength=4, concat=3, setcol=4,
-                setcolkind=3, new=1, delrows=2)
+                setcolkind=3, new=1, delrows=2, setcolfromslice=4, setcolfromcol=2)
     gen_kw = {'bad_rate': 0.12}
     rule = ('assignment-heavy histories (~40% cell assignments through int / slice / index list / selection / Row '
             'addressing, scalar and sequence values, 12% malformed: wrong lengths, out-of-range indices, unrelated '
@@ -197,8 +221,9 @@ class C04(ProbeMixin, HistProp):
 class C06(ProbeMixin, HistProp):
     id = 'C06'
     props_file = 'theories/Props/C06.v'
+    series_share = 0.25
     weights = W(select=6, merge=5, slice=6, getrows=3, sort=5, shuffle=5, sample=3, concat=5, setcolfromcol=6,
-                setcell=14, setcol=6, setlength=6, rename=4, delcol=3, delrows=4, setcolkind=3, new=1)
+                setcell=14, setcol=6, setlength=6, rename=4, delcol=3, delrows=4, setcolkind=3, new=1, setcolfromslice=4)
     rule = ('derive-then-mutate histories: every deriving operator of the alphabet (slice, selection, merge, sort, '
             'shuffle, sample, concatenation, column copy / deliberate alias) followed by mutations (cell and column '
             'assignment, resize, rename, delete) of either the source or the derived object; after every step every '
@@ -299,6 +324,7 @@ class C06(ProbeMixin, HistProp):
 class C07(ProbeMixin, HistProp):
     id = 'C07'
     props_file = 'theories/Props/C07.v'
+    series_share = 0.35
     weights = W(setlength=26, select=8, sort=5, shuffle=5, sample=2, merge=5, concat=4, slice=3, getrows=3, setcell=10,
                 setcol=4, setcolkind=4, setcolfromcol=3, delrows=2, new=1)
     rule = ('resize-heavy histories (~30% dm.length = n with shrink, no-op, grow, shrink to zero then grow) on tables '
@@ -319,8 +345,9 @@ class C07(ProbeMixin, HistProp):
 class C08(HistProp):
     id = 'C08'
     props_file = 'theories/Props/C08.v'
+    series_share = 0.15
     weights = W(delrows=14, delcol=8, rename=14, setsorted=5, setcolfromcol=8, setcolkind=4, setcol=4, select=6, sort=4,
-                shuffle=3, merge=4, setcell=8, setlength=4, slice=2, concat=2, new=1)
+                shuffle=3, merge=4, setcell=8, setlength=4, slice=2, concat=2, new=1, setcolfromslice=2)
     gen_kw = {'bad_rate': 0.15}
     rule = ('delete/rename-heavy histories (row deletion with negative and multiple positions, column deletion, '
             'rename incl. missing / existing / non-identifier names, aliased columns, dm.sorted switches) followed by '
@@ -333,6 +360,7 @@ class C08(HistProp):
 class C09(ProbeMixin, HistProp):
     id = 'C09'
     props_file = 'theories/Props/C09.v'
+    series_share = 0.25
     weights = W(concat=24, new=4, setcolkind=8, setcol=8, select=6, sort=3, shuffle=3, merge=5, setlength=6, setcell=10,
                 slice=3, delrows=2, rename=2)
     gen_kw = {'max_pool': 9}
@@ -416,6 +444,7 @@ class C09(ProbeMixin, HistProp):
 class C11(ProbeMixin, HistProp):
     id = 'C11'
     props_file = 'theories/Props/C11.v'
+    series_share = 0.15
     weights = W(shuffle=20, sample=12, select=10, setcell=12, merge=6, setcolkind=6, setcol=4, slice=3, sort=3,
                 setlength=4, concat=2, new=1, getrows=2)
     gen_kw = {'bad_rate': 0.1}
@@ -438,7 +467,8 @@ class C11(ProbeMixin, HistProp):
         out = []
         for k in range(n):
             sub = random.Random(rng.randrange(1 << 30))
-            kind = sub.choice(['shuffle_col', 'sample_col', 'shuffle_horiz', 'shuffle_horiz_one', 'orders', 'sample_err'])
+            kind = sub.choice(['shuffle_col', 'sample_col', 'shuffle_horiz', 'shuffle_horiz_one', 'orders', 'sample_err',
+                               'shuffle_col_key', 'sample_col_key', 'shuffle_horiz_series'])
             problem = None
             with warnings.catch_warnings():
                 warnings.simplefilter('ignore')
@@ -468,6 +498,49 @@ class C11(ProbeMixin, HistProp):
                         c = ops.random_sample(dm.a, kk)
                         if len(list(c)) != kk or len(set(c)) != kk or not set(c) <= set(before[0]):
                             problem = 'random_sample(column, %d) -> %r' % (kk, list(c))
+                    elif kind == 'shuffle_col_key':
+                        # the shuffled column is an ordinary column aligned with the table: used as a selection key it
+                        # selects the rows at the positions where IT holds the value, and it can be read / written
+                        # through such a selection
+                        src_col = sub.choice(['a', 'f', 'u'])
+                        c = ops.shuffle(dm[src_col])
+                        vals = list(c)
+                        v = vals[sub.randrange(5)]
+                        sel = (c == v)
+                        want = [i for i in range(5) if vals[i] == v]
+                        if list(sel.u) != [before[3][i] for i in want] or list(sel.a) != [before[0][i] for i in want]:
+                            problem = 'shuffle(column) == %r selected rows u=%r, the value sits at positions %r' % (
+                                v, list(sel.u), want)
+                        elif list(c[sel]) != [v] * len(want):
+                            problem = 'reading the shuffled column through its own selection gave %r' % (list(c[sel]),)
+                    elif kind == 'sample_col_key':
+                        kk = sub.randint(1, 5)
+                        src_col = sub.choice(['a', 'f', 'u'])
+                        c = ops.random_sample(dm[src_col], kk)
+                        vals = list(c)
+                        if len(c._rowid) != len(vals):
+                            problem = 'random_sample(column, %d) carries %d row ids for %d values' % (kk, len(c._rowid), len(vals))
+                        else:
+                            v = vals[sub.randrange(kk)]
+                            sel = (c == v)
+                            srcvals = before[{'a': 0, 'f': 2, 'u': 3}[src_col]]
+                            if [srcvals[before[3].index(u)] for u in sel.u] != [v]:
+                                problem = 'sampled column == %r selected the rows u=%r' % (v, list(sel.u))
+                    elif kind == 'shuffle_horiz_series':
+                        from datamatrix import SeriesColumn
+                        d0 = dm[:]
+                        d0.s = SeriesColumn(depth=2)
+                        d0.t = SeriesColumn(depth=2)
+                        for i in range(5):
+                            d0.s[i] = [i + 1, i + 1]
+                            d0.t[i] = [(i + 1) * 10, (i + 1) * 10]
+                        d2 = ops.shuffle_horiz(d0.s, d0.t)
+                        for i in range(5):
+                            got = sorted([tuple(d2.s[i]), tuple(d2.t[i])])
+                            if got != sorted([(i + 1.0, i + 1.0), ((i + 1) * 10.0, (i + 1) * 10.0)]):
+                                problem = 'shuffle_horiz of two series columns: row %d holds %r' % (i, got)
+                        if list(d2.a) != before[0] or list(d0.s[2]) != [3, 3]:
+                            problem = problem or 'shuffle_horiz of series columns touched other cells'
                     elif kind == 'sample_err':
                         try:
                             ops.random_sample(dm if sub.random() < 0.5 else dm.a, 6)
